@@ -12,7 +12,7 @@ def run(ctx):
     ctx.cov["rule"] = (
         "edges: one generated TeX program per transition of the TexGroups table (shortest path to the "
         "source state, the operation, then a probe that reads every bound quantity, closes a group, reads "
-        "again ...), instantiated for rotating pairs of quantity kinds (4 map kinds x 15 variable kinds + "
+        "again ...), instantiated for rotating pairs of quantity kinds (4 map kinds x 19 variable kinds incl. registers assigned through \\countdef/\\toksdef aliases and \\newInt variables + "
         "\\globaldefs); every program is distinct and non-trivial (>= 1 operation and >= 3 reads).  "
         "traces: random programs at depth <= 10 with reads after every operation, validated by TLC against "
         "the unbounded reference layer."
